@@ -40,16 +40,16 @@ def pairing(a_list, b_list):
 
 
 def poly_zero(e):
-    """polynomial identity by normalisation: z3's sum-of-monomials rewriting, iterated to a fixed point (one pass does not distribute nested
-    products of sums)"""
-    d = e
-    for _ in range(8):
-        d2 = z3.simplify(d, som=True, flat=True)
-        if z3.is_rational_value(d2):
-            return d2.numerator_as_long() == 0
-        if d2.eq(d):
-            break
-        d = d2
+    d = z3.simplify(e, som=True, flat=True)
+    return z3.is_rational_value(d) and d.numerator_as_long() == 0
+
+
+def poly_zero_full(e):
+    """polynomial identity by normalisation: z3's sum-of-monomials rewriting first, full expansion with sympy second (z3's rewriter does not distribute
+    products of several sums).  Used where the identity is large; `poly_zero` (one rewriting pass) is what the older contracts branch on"""
+    d = z3.simplify(e, som=True, flat=True)
+    if z3.is_rational_value(d):
+        return d.numerator_as_long() == 0
     return _poly_zero_expand(d)
 
 
